@@ -28,6 +28,14 @@ def leaf_explicit(v):
     return ("leaf", v)
 
 
+@A()
+def returns_exception():
+    return EXC_VALUE_BOX[0]
+
+
+EXC_VALUE_BOX = [None]
+
+
 class Env(object):
     def __init__(self):
         self.done = {}
@@ -50,6 +58,8 @@ def make_slot(env, sid, slot):
         return _Obj(slot[1])
     if k == "leafx":
         return leaf_explicit.asynq(slot[1])
+    if k == "retexc":
+        return returns_exception.asynq()
     if k == "meth":
         return Holder(3).m.asynq(slot[1], env, sid)
     if k == "proxy":
@@ -168,6 +178,8 @@ class ARef(Ref):
         k = slot[0]
         if k == "leafx":
             return ("v", ("leaf", slot[1])), False, 0
+        if k == "retexc":
+            return ("v", EXC_VALUE_BOX[0]), False, 0
         if k in ("meth", "proxy"):
             return self.task(slot[1], "%s/%d.%d" % (st["sid"], st["nyield"], idx))
         return Ref.slot(self, st, slot, idx)
@@ -261,8 +273,9 @@ def check(td, entry=0, sig=None):
 
 
 # slot menu for batch-free programs
-AMENU = 10
+AMENU = 11
 EXC_VALUE = E("an exception object returned as an ordinary value")
+
 
 
 def aslot(sel, i, v):
@@ -285,8 +298,10 @@ def aslot(sel, i, v):
     if sel == 8:
         return ("meth" if i % 2 == 0 else "proxy", fam.plain_task("mp%d" % i, v))
     if sel == 9:
-        # a task whose ordinary return value is an exception *object* (returned, not raised)
+        # a task whose ordinary return value contains an exception *object* (returned, not raised)
         return TASK(fam.plain_task("ev%d" % i, EXC_VALUE))
+    if sel == 10:
+        return ("retexc",)      # an awaited function whose result IS an exception object
     raise AssertionError(sel)
 
 
@@ -335,3 +350,6 @@ def conds(tier):
                         family="batch-free programs: 14 templates x 9 slot kinds^3 x guards x entry", encodes=ENC,
                         extra_pre=["_hm.core.unused_ok(%r, t, [s0, s1, s2])" % (T,)]))
     return out
+
+
+EXC_VALUE_BOX[0] = EXC_VALUE
